@@ -39,6 +39,10 @@ func (s *Service) BlockRootToSlot(ctx context.Context, root phase0.Root) (phase0
 		monitorBlockRootToSlot("failed")
 		return 0, errors.Wrap(err, "failed to obtain block header")
 	}
+	if blockResponse == nil || blockResponse.Data == nil || blockResponse.Data.Header == nil || blockResponse.Data.Header.Message == nil {
+		monitorBlockRootToSlot("failed")
+		return 0, errors.New("obtained block header without content")
+	}
 	slot = blockResponse.Data.Header.Message.Slot
 	s.SetBlockRootToSlot(root, slot)
 
